@@ -24,8 +24,9 @@ Record dcase := DC {
                                         name -> digest of the same text PARSED AGAIN at those two moments *)
   dc_rt : obs domainv;               (* the combination exported by DomainExporter and parsed again (Raised: the
                                         export or the parse raised) *)
-  dc_obs2 : obs domainv;             (* locate_domains with the OTHER setting of add_dummy_actions *)
-  dc_rt2 : obs domainv;              (* ... exported and parsed again *)
+  dc_alt : option (obs domainv * obs domainv);
+                                     (* locate_domains with the OTHER setting of add_dummy_actions, and that
+                                        combination exported and parsed again (None: not run for this job) *)
   dc_expect : option domainv         (* the unsplit domain the generator started from *)
 }.
 
@@ -96,6 +97,8 @@ Definition d_model (c : dcase) : obs domainv :=
   obs_of_result (locate_domains_r (dc_defaults c) (dc_dummy c) (map result_of_obs (dc_files c))).
 Definition d_model2 (c : dcase) : obs domainv :=
   obs_of_result (locate_domains_r (dc_defaults c) (negb (dc_dummy c)) (map result_of_obs (dc_files c))).
+Definition dc_obs2 (c : dcase) : obs domainv :=
+  match dc_alt c with Some (o, _) => o | None => d_model2 c end.
 
 (* names a Domain() created after the call starts with, by the store model *)
 Definition d_model_fresh (c : dcase) : list string :=
@@ -150,20 +153,24 @@ Definition rt_checks (tag : string) (lenient : bool) (r : domainv) (rt : obs dom
   end.
 
 Definition d_checks (c : dcase) : list (string * bool) :=
-  match returned_all (dc_files c), dc_obs c, dc_obs2 c with
-  | None, _, _ => [("some file does not parse: nothing demanded", true)]
-  | Some fs, Raised, _ => [("all files parse but the call raised", false)]
-  | Some fs, _, Raised => [("all files parse but the call with the other dummy setting raised", false)]
-  | Some fs, Returned r, Returned r2 =>
+  match returned_all (dc_files c), dc_obs c with
+  | None, _ => [("some file does not parse: nothing demanded", true)]
+  | Some fs, Raised => [("all files parse but the call raised", false)]
+  | Some fs, Returned r =>
       let dm := dc_dummy c in
       let lenient := negb (agree_b (dc_defaults c :: map d_types fs)) in
       union_checks "" dm (dc_defaults c) fs r ++
-      union_checks "other dummy setting: " (negb dm) (dc_defaults c) fs r2 ++
+      match dc_alt c with
+      | None => []
+      | Some (Raised, _) => [("all files parse but the call with the other dummy setting raised", false)]
+      | Some (Returned r2, rt2) =>
+          union_checks "other dummy setting: " (negb dm) (dc_defaults c) fs r2 ++
+          rt_checks "export/re-parse, other dummy setting: " lenient r2 rt2
+      end ++
       [("default types untouched", set_equiv_b (dc_fresh_after c) ["object"] &&
                                    set_equiv_b (dc_default_after c) ["object"]);
        ("other domains untouched, parsed again the same", others_same_b (dc_others c))] ++
       rt_checks "export/re-parse: " lenient r (dc_rt c) ++
-      rt_checks "export/re-parse, other dummy setting: " lenient r2 (dc_rt2 c) ++
       [("equals the unsplit domain",
         match dc_expect c with
         | None => true
@@ -221,6 +228,62 @@ Definition judge (c : case) : verdict :=
   end.
 
 Definition run (cases : list case) : string := summary judge cases.
+
+(* ---------------------------------------------------------------- one directory, several discovery orders.
+   The per-agent dumps of a directory are the same for every order; they cross once, each run names its order by
+   positions.  [expand] rebuilds the cases above, which are judged one by one. *)
+Record drun := DR {
+  dr_order : list nat; dr_dummy : bool; dr_obs : obs domainv; dr_fresh_after : list string;
+  dr_default_after : list string; dr_others : list alist; dr_rt : obs domainv;
+  dr_alt : option (obs domainv * obs domainv)
+}.
+
+Record prun := PR {
+  pr_order : list nat; pr_obs : obs problemv; pr_rt : obs problemv; pr_fresh_after : list string;
+  pr_others : list alist
+}.
+
+Inductive group :=
+  | GD (defaults : alist) (files : list (obs domainv)) (expect : option domainv) (runs : list drun)
+  | GP (files : list (obs problemv)) (expect : option problemv) (runs : list prun).
+
+Definition pick {A} (files : list (obs A)) (order : list nat) : list (obs A) :=
+  map (fun i => nth i files Raised) order.
+
+Definition expand (g : group) : list case :=
+  match g with
+  | GD defaults files expect runs =>
+      map (fun r => CD (DC defaults (dr_dummy r) (pick files (dr_order r)) (dr_obs r) (dr_fresh_after r)
+                           (dr_default_after r) (dr_others r) (dr_rt r) (dr_alt r) expect)) runs
+  | GP files expect runs =>
+      map (fun r => CP (PC (pick files (pr_order r)) (pr_obs r) (pr_rt r) (pr_fresh_after r) (pr_others r) expect)) runs
+  end.
+
+Definition run_groups (gs : list group) : string := summary judge (flat_map expand gs).
+
+(* ---------------------------------------------------------------- table-coded literals.
+   Parsing string literals dominates the cost of a shard, and the same names and entry texts occur in every dump
+   of a directory.  A group therefore crosses as  let t := [texts] in GD ...  with every dump written through the
+   decoders below: a text is its position in [t]; a dict is the list  k0 v0 k1 v1 ...  of positions.  The decoding
+   is part of the evaluated term (nothing is compared before it is decoded). *)
+Definition tget (t : list string) (i : nat) : string := nth i t "".
+
+Fixpoint dec_pairs (t : list string) (l : list nat) : alist :=
+  match l with
+  | a :: b :: r => (tget t a, tget t b) :: dec_pairs t r
+  | _ => []
+  end.
+
+Definition ES (t : list string) (l : list nat) : list string := map (tget t) l.
+Definition EA (t : list string) (l : list nat) : alist := dec_pairs t l.
+
+Definition ED (t : list string) (name : option nat) (reqs types consts preds funcs acts : list nat) : domainv :=
+  D (option_map (tget t) name) (ES t reqs) (EA t types) (EA t consts) (EA t preds) (EA t funcs) (EA t acts).
+
+Definition EP (t : list string) (name : nat) (objs : list nat) (facts : list (nat * list nat))
+  (fluents goals ngoals : list nat) : problemv :=
+  P (tget t name) (EA t objs) (map (fun kf => (tget t (fst kf), ES t (snd kf))) facts) (EA t fluents)
+    (ES t goals) (ES t ngoals).
 
 (* debugging aid: the failed sub-checks and what the model computes *)
 Definition explain (c : case) :=
